@@ -1,12 +1,14 @@
 #!/usr/bin/env python3
 """C20 — no input can corrupt memory in any program of the suite.   (proof, PARTIAL — see notes/C20.md)
 
-Six harness binaries feed one compiled Lean driver (drv_c20):
+Ten harness binaries (six sources) feed one compiled Lean driver (drv_c20):
   harness/c20_lib.c    gen_allocdefs.h / stralloc_*.c / quote.c doit() / substdo.c / substdi.c   vs Nq.Stralloc, Nq.Substdio
   harness/c20_dns.c    dns.c resolve/findname/findip/findmx/dns_ip/dns_mxip/dns_ptr (interposed resolver, poisoned
                        buffer tail)                                                              vs Nq.Dns
   harness/c20_parse.c  token822 / cdb_seek / control+constmap / ip_scan / headerbody+hfield / getln / scan   (sanitised
                        in-process execution; cdb_seek also vs Nq.Users.cdbSeek)
+  harness/c20_fixed.c  qmail-qmqpd getbuf(), qmail-qmtpd main() sender/recipient, qmail-getpw userext(), qmail.c qmail_errstr(),
+                       quote.c quote_need(): which bytes of the fixed buffers are stored to / read                vs Nq.FixedBuf
   harness/c20_report.c report() of qmail-rspawn.c / qmail-lspawn.c on exact-size child output           vs Nq.Spawn.reportBody
   harness/c20_prog.c   the real sanitised binaries qmail-smtpd/-qmtpd/-qmqpd/-pop3d/-popup/-inject/-local as child
                        processes on hostile streams (every truncation point, extreme declared lengths, thousands of
@@ -37,6 +39,9 @@ RULE = ("(1) c20_lib: gen_alloc ready/readyplus for EVERY pair of 40 edge values
         "headerbody/hfield; getln over every chunking; %(nparse)s random. "
         "(3b) c20_report: report() of qmail-rspawn and qmail-lspawn on every child output over {r,h,s,K,Z,D,NUL,x} up to length 5(6) and %(nrep)s random outputs up to 5000 "
         "bytes in exact-size blocks, 11 wait statuses. "
+        "(3c) c20_fixed: the real getbuf() for every declared length 0..1100 (and 1500..2000000009) at full / cut streams, qmail-qmtpd's main() on sender x recipient "
+        "lengths around every guard for 11 RELAYCLIENT settings, userext() on every string over {a,-,B} to length 6(8) and 25..70-byte names with dashes around the "
+        "32-byte buffer, qmail_errstr() with 0..300 (..60000) bytes on the error descriptor, quote_need() on 0..120(400) bytes: set of indices stored / read compared with Nq.FixedBuf. "
         "(4) c20_prog: the real sanitised binaries as child processes: every truncation point of valid SMTP/QMTP/QMQP/POP3/popup sessions, declared netstring lengths "
         "up to 2^31, 2^32, 2^64 and beyond followed by EOF, address lengths around every buffer size, thousands of recipients/tokens/commands, comment nesting to 50000, "
         "hostile .qmail files, %(nprog)s random mutations. "
@@ -141,7 +146,7 @@ def main():
 
             parse_objs = ("headerbody.o newfield.o quote.o control.o date822fmt.o constmap.o qmail.o case.a fd.a wait.a open.a getln.a sig.a "
                           "getopt.a datetime.a token822.o env.a stralloc.a substdio.a error.a str.a fs.a auto_qmail.o cdb.a")
-            with concurrent.futures.ThreadPoolExecutor(5) as ex:
+            with concurrent.futures.ThreadPoolExecutor(10) as ex:
                 # the parse/dns harnesses link auto_qmail.o: compile them before conf-qmail is changed? auto_qmail.o content is irrelevant
                 # to them (they never chdir there), but make rewrites the file while they link: so relink first, then compile.
                 ex.submit(relink).result()
@@ -151,7 +156,11 @@ def main():
                 fr = ex.submit(s.cc, os.path.join(VERIF, "harness/c20_prog.c"), os.path.join(s.dir, "h_c20_prog"))
                 frr = ex.submit(s.cc, os.path.join(VERIF, "harness/c20_report.c"), os.path.join(s.dir, "h_c20_rep_r"), "qmail-rspawn", "", "-DRSPAWN", ["spawn.o"])
                 frl = ex.submit(s.cc, os.path.join(VERIF, "harness/c20_report.c"), os.path.join(s.dir, "h_c20_rep_l"), "qmail-lspawn", "", "-DLSPAWN", ["spawn.o"])
+                fxs = [ex.submit(s.cc, os.path.join(VERIF, "harness/c20_fixed.c"), os.path.join(s.dir, "h_c20_fx_" + n), like, "", "-DFX_" + n.upper(), excl)
+                       for n, like, excl in (("qmqpd", "qmail-qmqpd", []), ("qmtpd", "qmail-qmtpd", ["qmail.o", "auto_qmail.o"]),
+                                             ("getpw", "qmail-getpw", []), ("qq", "qmail-inject", ["qmail.o"]))]
                 hl, hd, hp, hr, hrr, hrl = fl.result(), fd.result(), fp.result(), fr.result(), frr.result(), frl.result()
+                hfx = [x.result() for x in fxs]
             drv = driver_path("drv_c20")
             phase["harness_build_s"] = round(time.time() - t2, 1)
 
@@ -161,7 +170,7 @@ def main():
 
             def all_on(path):
                 return group(["%s - < %s" % (hl, path), "%s - < %s" % (hd, path), "%s %s - < %s" % (hp, work, path),
-                              "%s - < %s" % (hrr, path), "%s - < %s" % (hrl, path),
+                              "%s - < %s" % (hrr, path), "%s - < %s" % (hrl, path)] + ["%s %s - < %s" % (x, work, path) for x in hfx] + [
                               "%s %s %s %s - < %s" % (hr, s.dir, qhome, work, path)])
 
             def shard(i):
@@ -169,7 +178,8 @@ def main():
                               "%s %d %d %d %d %d" % (hd, a["level"], a["ndns"], c.seed, i, NCPU),
                               "%s %s %d %d %d %d %d" % (hp, work, a["level"], a["nparse"], c.seed, i, NCPU),
                               "%s %d %d %d %d %d" % (hrr, a["level"] + 4, a["nrep"], c.seed, i, NCPU),
-                              "%s %d %d %d %d %d" % (hrl, a["level"] + 4, a["nrep"], c.seed, i, NCPU),
+                              "%s %d %d %d %d %d" % (hrl, a["level"] + 4, a["nrep"], c.seed, i, NCPU)] +
+                             ["%s %s %d %d %d %d" % (x, work, a["level"], c.seed, i, NCPU) for x in hfx] + [
                               "%s %s %s %s %d %d %d %d %d" % (hr, s.dir, qhome, work, a["level"], a["nprog"], c.seed, i, NCPU)])
 
             def to_case_file(path):
@@ -279,7 +289,7 @@ def main():
                     found_input=True)
     else:
         standard_verdict(c, ok, stats, disagree, oracle, errors,
-                         "Nq.Stralloc / Nq.Substdio / Nq.Dns / Nq.Users.cdbSeek vs gen_allocdefs.h, stralloc_*.c, quote.c, substdo.c, substdi.c, dns.c, cdb_seek.c",
+                         "Nq.Stralloc / Nq.Substdio / Nq.Dns / Nq.FixedBuf / Nq.Users.cdbSeek / Nq.Spawn.reportBody vs gen_allocdefs.h, stralloc_*.c, quote.c, substdo.c, substdi.c, dns.c, qmail-qmqpd.c, qmail-qmtpd.c, qmail-getpw.c, qmail.c, cdb_seek.c, qmail-[lr]spawn.c",
                          neighbourhood, replay_hint="./check C20 --replay <file of case lines: the in= value with | replaced by spaces>")
     c.finish()
 
